@@ -24,13 +24,19 @@ root, mods = sys.argv[1], json.loads(sys.argv[2])
 sys.path.insert(0, root)
 project_roots = {m.split('.')[0] for m in mods}
 out = {}
+import os
 def ident(v):
-    if isinstance(v, types.ModuleType):
-        return v.__name__ if v.__name__.split('.')[0] in project_roots else None
-    if inspect.isclass(v) or inspect.isfunction(v):
-        m = getattr(v, '__module__', None)
-        if m and m.split('.')[0] in project_roots:
-            return m + '.' + v.__qualname__
+    """identity of a project object, independent of the names it goes by: source file (and first line)"""
+    try:
+        if isinstance(v, types.ModuleType):
+            f = getattr(v, '__file__', None)
+            return os.path.relpath(f, root) if f and v.__name__.split('.')[0] in project_roots else None
+        if inspect.isclass(v) or inspect.isfunction(v):
+            m = getattr(v, '__module__', None)
+            if m and m.split('.')[0] in project_roots:
+                return os.path.relpath(inspect.getsourcefile(v), root) + ':' + str(inspect.getsourcelines(v)[1])
+    except (OSError, TypeError):
+        return None
     return None
 def scan(ns_name, ns, is_class):
     d = {}
@@ -69,6 +75,7 @@ def _project(seed):
     files = {}
     mods = []              # (dotted name, is_package)
     defs = {}              # module -> list of (kind, name) defined there
+    star_all = {}          # module -> names listed in its __all__ (only own definitions)
     uid = [0]
 
     def fresh(prefix):
@@ -132,7 +139,7 @@ def _project(seed):
                         lines.append(f'from {dots}{".".join(tail[:-1])} import {tail[-1]} as {a}')
                     bound.add(a)
             elif style == 'star' and not any(l.endswith('import *') for l in lines):
-                names = [o for (_k, o) in defs[src]]
+                names = star_all[src] if src in star_all else [o for (_k, o) in defs[src]]
                 if not (set(names) & bound):
                     lines.append(f'from {src} import *')
                     bound.update(names)
@@ -175,6 +182,11 @@ def _project(seed):
         if rnd.random() < 0.4:
             # a private definition: a star import of this module does not bind it
             lines.append(f'class {fresh("_pv")}:\n    pass')
+        if rnd.random() < 0.3:
+            # __all__ listing some (possibly none) of the module's own definitions: a star import binds exactly those
+            chosen = [o for (_k, o) in mine if rnd.random() < 0.5]
+            lines.append('__all__ = [' + ', '.join(repr(o) for o in chosen) + ']')
+            star_all[name] = chosen
         defs.setdefault(name, []).extend(mine)
         texts[name] = '\n'.join(lines) + '\n'
     for name, is_pkg in order:
@@ -203,6 +215,13 @@ FIXED = [
     ({'q/__init__.py': 'from q import r\nfrom q.r import R1\n', 'q/r.py': 'class R1: pass\n', 'q/s.py': 'import q\nfrom q import R1 as viaPkg\nalias = q\n',
       't.py': 'import q.r, q.s\nfrom q.s import viaPkg as far\n'},
      ['q.r', 'q', 'q.s', 't']),
+    ({'rp/__init__.py': 'from .impl import engine as core\n__all__ = ["core"]\nclass TopX: pass\n', 'rp/impl/__init__.py': '',
+      'rp/impl/helpers.py': 'def helper_f(): pass\n', 'rp/helpers.py': 'def wrong_f(): pass\n',
+      'rp/impl/engine.py': 'from . import helpers\nfrom .helpers import helper_f\nfrom .helpers import helper_f as hf\nclass Engine:\n    from . import helpers as h2\n'},
+     ['rp.impl', 'rp.impl.helpers', 'rp.helpers', 'rp.impl.engine', 'rp']),
+    ({'ea/__init__.py': '', 'ea/consts.py': '__all__ = []\ndef helper(): pass\nclass Konst: pass\n', 'ea/plain.py': 'def plain_func(): pass\n',
+      'ea/user.py': 'from ea.plain import plain_func as helper\nfrom ea.consts import *\n'},
+     ['ea', 'ea.consts', 'ea.plain', 'ea.user']),
 ]
 
 
@@ -224,17 +243,26 @@ def _check(case):
             # the generated project does not import under CPython: not a verdict on pydoctor (generator limitation)
             return None
         runtime = json.loads(p.stdout.strip().splitlines()[-1])
-        # pydoctor on the same files
-        from replay import fixtures
-        mods = []
-        for rel in files:
-            name = rel[:-3].replace('/', '.')
-            if name.endswith('.__init__'):
-                mods.append((name[:-9], files[rel], True))
-            else:
-                mods.append((name, files[rel], False))
-        mods.sort(key=lambda m: (m[0].count('.'), m[0]))
-        system = fixtures.build_system(mods)
+        # pydoctor on the same files (from disk, so that every object knows its source file)
+        import contextlib, io
+        from pathlib import Path
+        from pydoctor import model
+        system = model.System()
+        builder = system.systemBuilder(system)
+        with contextlib.redirect_stdout(io.StringIO()):
+            for r_ in sorted({rel.split('/')[0] for rel in files}):
+                builder.addModule(Path(d) / r_)
+            builder.buildModules()
+
+        def pid_(o):
+            if o.source_path is None:
+                return None
+            rel = os.path.relpath(str(o.source_path), d)
+            return rel if isinstance(o, model.Module) else f'{rel}:{o.linenumber}'
+        by_id = {}
+        for o_ in system.allobjects.values():
+            if isinstance(o_, (model.Module, model.Class, model.Function)) and pid_(o_) is not None:
+                by_id[pid_(o_)] = o_
         fails = []
         checked = 0
         for scope, names in runtime.items():
@@ -245,26 +273,30 @@ def _check(case):
             for name, target in names.items():
                 checked += 1
                 got = ctx.resolveName(name)
-                if got is not None and got.fullName() != target:
-                    fails.append({'observed': f'in {scope}, {name!r} resolves to {got.fullName()} but Python binds it to {target}',
+                if got is not None and pid_(got) != target:
+                    fails.append({'observed': f'in {scope}, {name!r} resolves to {got.fullName()} ({pid_(got)}) but Python binds it to {target}',
                                   'required': 'the object the name denotes when the project is imported', 'class': 'wrong-object'})
                 if got is None:
                     # must resolve: imported directly from the defining module, or reached through a module alias
                     first = name.split('.')[0]
-                    tmod = target.rsplit('.', 1)[0]
-                    last = target.rsplit('.', 1)[-1]
+                    tob = by_id.get(target)
+                    if tob is None or isinstance(tob, model.Module) or tob.parent is None or not isinstance(tob.parent, model.Module):
+                        continue
+                    tmod = target.split(':')[0][:-3].replace('/', '.').removesuffix('.__init__')     # the defining module, by file
+                    last = tob.name
                     # `from <defining module> import <object> [as <name>]` standing in this scope's text, for an undotted name
-                    direct = '.' not in name and '.' in target and any(
+                    direct = '.' not in name and any(
                         l.strip() in (f'from {tmod} import {last}', f'from {tmod} import {last} as {name}') and (name == last or l.strip().endswith(f' as {name}'))
                         for l in text.splitlines())
                     # `import <defining module> as <alias>` and the name <alias>.<object>
-                    via_alias = name.count('.') == 1 and '.' in target and name.split('.')[1] == last and \
+                    via_alias = name.count('.') == 1 and name.split('.')[1] == last and \
                         any(l.strip() == f'import {tmod} as {first}' for l in text.splitlines())
-                    if (direct or via_alias) and target in system.allobjects:
+                    if direct or via_alias:
                         fails.append({'observed': f'in {scope}, {name!r} (Python: {target}) does not resolve', 'required': 'always resolves',
                                       'class': 'unresolved'})
         # ... or not at all: a definition of the project that a module namespace does not bind at run time must not resolve there
-        all_defs = {t.rsplit('.', 1)[-1]: t for names in runtime.values() for t in names.values() if t in system.allobjects}
+        all_defs = {by_id[t].name: t for names in runtime.values() for t in names.values()
+                    if t in by_id and not isinstance(by_id[t], model.Module)}
         for scope, names in runtime.items():
             ctx = system.allobjects.get(scope)
             if ctx is None or scope not in order:
